@@ -134,9 +134,13 @@ func report(id string, opt runOpts, L *Loaded, results []*UnitResult, outcomes m
 	// the ~k counter): an edited call site renames its call-precondition obligations, it must not unclaim them
 	missingStem := map[string]string{}
 	claimedUnit := map[string]bool{} // units with at least one claimed law obligation
+	statelessUnit := map[string]bool{}
 	for _, n := range ledger.Claimed {
 		if kindOfName(n) == "law" {
 			claimedUnit[funcOfObl(n)] = true
+		}
+		if strings.HasSuffix(n, ".captures-read-only") {
+			statelessUnit[funcOfObl(n)] = true
 		}
 	}
 	for _, n := range ledger.Claimed {
@@ -156,6 +160,11 @@ func report(id string, opt runOpts, L *Loaded, results []*UnitResult, outcomes m
 		}
 		if kf := matchKnown(known, id, n); kf != nil {
 			knownLines = append(knownLines, fmt.Sprintf("KNOWN-FINDING: property=%s %s %s", id, n, kf.What))
+			continue
+		}
+		if strings.HasSuffix(n, ".captures-read-only") && statelessUnit[funcOfObl(n)] {
+			// statelessness is claimed for every function literal of the unit, also for one that is new
+			viols = append(viols, viol{n, o, "a function literal of a unit whose literals are claimed stateless assigns a captured variable: " + o.status})
 			continue
 		}
 		if kindOfName(n) == "law" && claimedUnit[funcOfObl(n)] {
@@ -236,6 +245,12 @@ func writeEvidence(id string, opt runOpts, L *Loaded, results []*UnitResult, led
 	assume := map[string]bool{}
 	var funcs []string
 	notes := map[string]int{}
+	type slowObl struct {
+		name   string
+		t      float64
+		solver string
+	}
+	var slow []slowObl
 	var samples []map[string]any
 	for _, ur := range results {
 		uses := false
@@ -255,6 +270,9 @@ func writeEvidence(id string, opt runOpts, L *Loaded, results []*UnitResult, led
 			notes[k] += v
 		}
 		for i, q := range ur.Queries {
+			if i < len(ur.Results) && hasProp(ur.Props[q.Name], id) && !q.Cover {
+				slow = append(slow, slowObl{q.Name, ur.Results[i].TimeS, ur.Results[i].Solver})
+			}
 			if len(samples) < 6 && hasProp(ur.Props[q.Name], id) && !q.Cover && i < len(ur.Results) && q.Goal != nil && q.Goal.size > 5 {
 				samples = append(samples, map[string]any{"obligation": q.Name, "clause": q.Text, "status": ur.Results[i].Status, "solver": ur.Results[i].Solver,
 					"term_size": q.Goal.size, "assumptions": q.NAssume, "time_s": round3(ur.Results[i].TimeS)})
@@ -263,6 +281,14 @@ func writeEvidence(id string, opt runOpts, L *Loaded, results []*UnitResult, led
 	}
 	sort.Strings(funcs)
 	funcs = uniq(funcs)
+	sort.Slice(slow, func(i, j int) bool { return slow[i].t > slow[j].t })
+	var slowest []map[string]any
+	for i, so := range slow {
+		if i >= 8 {
+			break
+		}
+		slowest = append(slowest, map[string]any{"obligation": so.name, "time_s": round3(so.t), "solver": so.solver})
+	}
 	var as []string
 	for a := range assume {
 		as = append(as, a)
@@ -296,6 +322,7 @@ func writeEvidence(id string, opt runOpts, L *Loaded, results []*UnitResult, led
 			"unclaimed":                unclaimed,
 			"known_findings":           knownLines,
 			"samples":                  samples,
+			"slowest_obligations":      slowest,
 			"ledger_size":              len(ledger.Claimed),
 			"explanation":              "obligations = ledger obligations re-generated from the current source and attempted in this run; discharged = those proved unsat(negation) by an SMT solver; unclaimed obligations are attempted but only reported",
 		},
